@@ -199,6 +199,9 @@ struct World {
     now: u64,
     script: Script,
     seen_migs: HashSet<String>,
+    /// 3-node part: id of the node this world drives (the leader) and the follower coordinators
+    cluster: Option<(u64, Vec<(u64, SharedCoordinator, varpulis_cluster::raft::store::SharedCoordinatorState)>)>,
+    aborted: bool,
 }
 
 macro_rules! api {
@@ -236,17 +239,49 @@ impl World {
         clock::verif_set_ms(0);
         ctx.directive(&format!("new rs {}", timeout_ms));
         World { coord: Arc::new(tokio::sync::RwLock::new(c)), raft: boot.raft, shared: boot.shared_state, names: Names::new(base), now: 0,
-            script: script.clone(), seen_migs: HashSet::new() }
+            script: script.clone(), seen_migs: HashSet::new(), cluster: None, aborted: false }
+    }
+    fn still_leader(&self) -> bool {
+        match &self.cluster {
+            None => true,
+            Some((me, _)) => { let m = self.raft.metrics().borrow().clone(); m.current_leader == Some(*me) && m.state == openraft::ServerState::Leader }
+        }
     }
     async fn shutdown(self) { let _ = tokio::time::timeout(Duration::from_secs(20), self.raft.shutdown()).await; }
 
     fn set_time(&mut self, t: u64) { if t > self.now { self.now = t; } clock::verif_set_ms(self.now); }
 
     async fn emit(&mut self, ctx: &mut Ctx, op: &str, answer: &str) {
+        if self.aborted { return; }
+        // 3-node part: a leader change (spurious election on a loaded machine) ends the scenario without a verdict
+        if !self.still_leader() { self.aborted = true; ctx.count("cluster.leader_changed_scenario_cut"); return; }
         let l = { let c = self.coord.read().await; self.names.dump_local(&c) };
         let r = { let s = self.shared.read().unwrap_or_else(|e| e.into_inner()).clone(); self.names.dump_replicated(&s) };
         ctx.count(&format!("op.{}", op.split(' ').next().unwrap_or("")));
         ctx.case(op, &format!("{} | L {} | R {}", answer, l, r));
+        // followers: once they have applied what the leader has applied, their health loop's sync_from_raft
+        // must give them the leader's view
+        if let Some((_, followers)) = &self.cluster {
+            let target = varpulis_cluster::raft::store::verif_applied::get(&self.shared).and_then(|x| x.0);
+            let followers: Vec<_> = followers.iter().map(|(i, c, s)| (*i, c.clone(), s.clone())).collect();
+            for (fid, fcoord, fshared) in followers {
+                let t0 = std::time::Instant::now();
+                loop {
+                    let a = varpulis_cluster::raft::store::verif_applied::get(&fshared).and_then(|x| x.0);
+                    if a == target { break; }
+                    if !self.still_leader() { self.aborted = true; ctx.count("cluster.leader_changed_scenario_cut"); return; }
+                    if t0.elapsed() > Duration::from_secs(120) { infra(&format!("follower {fid} did not catch up within 120 s")); }
+                    tokio::time::sleep(Duration::from_millis(20)).await;
+                }
+                clock::verif_set_ms(self.now);
+                { let mut c = fcoord.write().await; c.update_raft_role(); c.sync_from_raft(); }
+                let f = { let c = fcoord.read().await; self.names.dump_local(&c) };
+                let fr = { let s = fshared.read().unwrap_or_else(|e| e.into_inner()).clone(); self.names.dump_replicated(&s) };
+                let now = self.now;
+                ctx.count("op.fview");
+                ctx.case(&format!("fview {} {}", fid, now), &format!("ok | L {} | F {} | R {}", l, f, fr));
+            }
+        }
     }
 
     async fn register(&mut self, ctx: &mut Ctx, w: &str, cpu: usize, run0: usize, max: usize) {
@@ -559,6 +594,47 @@ async fn scenario(ctx: &mut Ctx, base: &str, script: &Script, idx: u64) {
     w.shutdown().await;
 }
 
+/// 3-node part: the API is driven on the leader's coordinator; after every call each follower coordinator
+/// (own raft node, own replicated state) runs its health loop's `sync_from_raft` and is compared with the leader
+async fn scenario3(ctx: &mut Ctx, base: &str, script: &Script) {
+    let scratch = ctx.scratch("c38");
+    let c = crate::p_raftagree::Cluster::start(None, &scratch).await;
+    let (lid, _) = c.wait_leader(90, &[1, 2, 3]).await;
+    let peers: std::collections::BTreeMap<u64, String> = c.addrs.iter().enumerate().map(|(i, a)| (i as u64 + 1, a.clone())).collect();
+    let mut leader_coord = None;
+    let mut followers = Vec::new();
+    for n in c.live() {
+        let mut co = Coordinator::with_raft(n.raft.clone(), n.shared.clone(), peers.clone(), None);
+        co.heartbeat_timeout = Duration::from_millis(15000);
+        let sc: SharedCoordinator = Arc::new(tokio::sync::RwLock::new(co));
+        if n.id == lid { leader_coord = Some((sc, n.raft.clone(), n.shared.clone())); } else { followers.push((n.id, sc, n.shared.clone())); }
+    }
+    let (coord, raft, shared) = leader_coord.unwrap_or_else(|| infra("leader node vanished"));
+    clock::verif_set_ms(0);
+    ctx.directive("new rs 15000");
+    let mut w = World { coord, raft, shared, names: Names::new(base), now: 0, script: script.clone(), seen_migs: HashSet::new(),
+        cluster: Some((lid, followers)), aborted: false };
+    let wn = |i: u64| format!("w{}", i);
+    for i in 1..=2u64 { w.set_time(w.now + 10); w.register(ctx, &wn(i), 2, 0, 4).await; }
+    let steps = 8 + ctx.rng.below(6);
+    for _ in 0..steps {
+        if w.aborted { break; }
+        let anyw = wn(1 + ctx.rng.below(3));
+        match ctx.rng.below(12) {
+            0 | 1 => { w.set_time(w.now + ctx.rng.below(3000)); let n = w.assigned_len(&anyw).await; w.heartbeat(ctx, &anyw, n, 9).await; }
+            2..=4 => { if w.groups().await.len() < 2 { let specs = vec![PSpec { name: "p".into(), aff: None, replicas: 1 + ctx.rng.below(2) as usize }]; w.deploy(ctx, "grp", &specs, &[true, true, !ctx.rng.chance(1, 4)]).await; } }
+            5 => { let gs = w.groups().await; if !gs.is_empty() { let g = ctx.rng.pick(&gs).clone(); w.teardown(ctx, &g).await; } }
+            6 | 7 => { let ps = w.placements().await; if !ps.is_empty() { let (g, n, _) = ctx.rng.pick(&ps).clone(); w.manual_migrate(ctx, &g, &n, &anyw, true).await; } }
+            8 | 9 => { let name = ctx.rng.pick(&["c1", "c2"]).to_string(); let cn = gen_connector(ctx, &name); if ctx.rng.chance(2, 3) { w.connector(ctx, "create", &name, Some(cn)).await; } else { w.connector(ctx, "delete", &name, None).await; } }
+            10 => { w.set_time(w.now + 16000); let x = wn(1); let n = w.assigned_len(&x).await; w.heartbeat(ctx, &x, n, 1).await; w.tick(ctx, &[true, true, true, true]).await; }
+            _ => { w.set_time(w.now + 20); w.register(ctx, &anyw, 2, 0, 4).await; }
+        }
+    }
+    if !w.aborted { w.set_time(w.now + 10); w.tick(ctx, &[]).await; }
+    c.shutdown().await;
+    let _ = std::fs::remove_dir_all(&scratch);
+}
+
 pub fn run(ctx: &mut Ctx, _name: &str) {
     let rt = tokio::runtime::Builder::new_multi_thread().worker_threads(2).enable_all().build().expect("runtime");
     let script: Script = Arc::new(Mutex::new(VecDeque::new()));
@@ -567,6 +643,10 @@ pub fn run(ctx: &mut Ctx, _name: &str) {
     let scenarios = if ctx.thorough { 1500 } else { 150 };
     rt.block_on(async {
         for i in 0..scenarios { scenario(ctx, &base, &script, i).await; }
+        if std::env::var("VERIF_C38_NO_CLUSTER").is_err() {
+            let clusters = if ctx.thorough { 6 } else { 2 };
+            for _ in 0..clusters { scenario3(ctx, &base, &script).await; }
+        }
     });
     clock::verif_off();
 }
